@@ -483,11 +483,12 @@ def loadPeers (d : Durable) (m : Mem) : Except Err (List Key) :=
 
 def emptyMem : Mem := ⟨0, [], fun _ => none, 0, 0, [], [], [], [], [], 0⟩
 
-/-- first start on a directory without a version key: stores are cleared (not the accumulators already loaded,
-nor the hash file), the genesis block is executed and submitted, the version key is written -/
-def initGenesis (p : Params) (d : Durable) (bt st : List Bytes) (pos : Nat) (g : Block) : Except Err State :=
+/-- first start on a directory without a version key: the three stores are cleared — `StateStore.ClearAll` also
+starts both accumulators and the hash-store position again from the emptied store (the file itself is not truncated) —,
+the genesis block is executed and submitted, the version key is written -/
+def initGenesis (p : Params) (d : Durable) (g : Block) : Except Err State :=
   let d0 : Durable := { blocks := .empty, states := .empty, events := .empty, fileLen := d.fileLen }
-  let s0 : State := { dur := d0, mem := { emptyMem with blockTree := bt, stateTree := st, filePos := pos } }
+  let s0 : State := { dur := d0, mem := emptyMem }
   match submitBlock p s0 g (executeBlock p s0 g).1 with
   | .error e => .error e
   | .ok s1 => .ok { s1 with dur := { s1.dur with blocks := { s1.dur.blocks with version := true } } }
@@ -516,7 +517,7 @@ def reopen (p : Params) (g : Block) (d : Durable) : Except Err State :=
   match openState d with
   | .error e => .error e
   | .ok (bt, st, pos) =>
-    match (if !d.blocks.version then initGenesis p d bt st pos g
+    match (if !d.blocks.version then initGenesis p d g
            else if (d.blocks.blockAt g.header.hash).isNone then .error .genesis
            else resume p d bt st pos) with
     | .error e => .error e
